@@ -58,9 +58,15 @@ out += ["", "-------------------------------------------------------------------
         "(patch applies; `go build ./...`; full test-suite passes with the change — retrying packages the baseline lists as",
         "flaky; demonstration fails with the change and passes without it) and is run with `lib/run_seeded.py` (scratch",
         "worktree, `VERIF_REPO`), never committed to /repo.  Rounds: `_m*` = round 1 (two per property), `_n*` = round 2 (three",
-        "per property, asked for cooperating sites / fault or interleaving dependence / boundary paths).  `first` = result of",
-        "the check as it was when the change arrived; `now` = current check.  Misses were forwarded to the property's builder",
-        "and led to the strengthening named in section 5.", ""]
+        "per property, asked for cooperating sites / fault or interleaving dependence / boundary paths), `_q*` = round 3 and",
+        "`_r*` = round 4 (three per property each, written after the `fix:` commits of section 6 had landed, asked to avoid the",
+        "code paths of earlier rounds: error-return paths, role/epoch transitions, second call after a refusal, neighbouring",
+        "option codes, restart paths).  `first` = result of the check as it was when the change arrived; `now` = current check.",
+        "Misses were forwarded to the property's builder and led to the strengthening named in section 5 — always of the",
+        "*class* the change belongs to (a new case kind, a new op in the model's alphabet, a theorem over the newly modelled",
+        "step), not the single witness.  Patches that went stale when a `fix:` commit touched the same lines were rebased onto",
+        "HEAD (and their demonstrations re-verified) rather than dropped; one (C06_m1) became neutral on HEAD and is retired.",
+        "@@ROUNDSTATS@@", ""]
 res = json.load(open(os.path.join(V, "seeded/RESULTS.json")))
 first = {}
 fp = os.path.join(V, "seeded/FIRST_RESULTS.json")
@@ -81,7 +87,38 @@ for d in sorted(os.listdir(sd)):
         r = res.get(d)
         now = "?" if r is None else ("caught" + (" (correspondence only)" if r["violation_lines"] and "no-failing-input-found" in r["violation_lines"][0] else "") if r["caught"] else "MISSED")
     out.append("| %s | %s | %s | %s | %s |" % (d, m["property"], touches, first.get(d, "caught"), now))
-out += ["", open(os.path.join(V, "notes/DESIGN_tail.md")).read().rstrip(), ""]
+# round statistics
+rounds = {"m": [0, 0], "n": [0, 0], "q": [0, 0], "r": [0, 0]}
+tot = missed_now = retired = 0
+for d in sorted(os.listdir(sd)):
+    mp = os.path.join(sd, d, "meta.json")
+    if not os.path.exists(mp):
+        continue
+    m = json.load(open(mp))
+    tag = d.split("_", 1)[1][0]
+    tot += 1
+    if tag in rounds:
+        rounds[tag][0] += 1
+        if first.get(d, "caught") != "caught":
+            rounds[tag][1] += 1
+    if m.get("status") == "retired":
+        retired += 1
+    elif not (res.get(d) or {}).get("caught"):
+        missed_now += 1
+nfirst = sum(v[1] for v in rounds.values())
+stats = ("Totals: %d changes kept (%s); %d were missed or only half-recognised on arrival (%s); now %d caught, %d missed, %d retired."
+         % (tot, ", ".join("round %s: %d" % (k, v[0]) for k, v in rounds.items()), nfirst,
+            ", ".join("%s: %d" % (k, v[1]) for k, v in rounds.items()), tot - retired - missed_now, missed_now, retired))
+out = [o.replace("@@ROUNDSTATS@@", stats) for o in out]
+tail = open(os.path.join(V, "notes/DESIGN_tail.md")).read().rstrip()
+nthm = 0
+for pp in props:
+    f = os.path.join(V, "coq/theories", pp["id"], "Properties.v")
+    if os.path.exists(f):
+        nthm += len(re.findall(r"^\s*(?:Theorem|Example|Lemma|Corollary)\s", open(f).read(), re.M))
+tail = (tail.replace("@@NSEED@@", str(tot)).replace("@@NFIRSTMISS@@", str(nfirst)).replace("@@NLIVE@@", str(tot - retired))
+        .replace("@@NTHM@@", str(nthm)).replace("@@NKNOWNW@@", str(len(known))))
+out += ["", tail, ""]
 text = "\n".join(out) + "\n"
 text = text.replace("@@NSIG@@", str(len(fixed) + len(known))).replace("@@NKNOWN@@", str(len(known))).replace("@@NCOMMIT@@", str(len({f[2] for f in fixed})))
 open(os.path.join(V, "DESIGN.md"), "w").write(text)
